@@ -74,8 +74,10 @@ func (b *Ring[T]) ReadMulti(n int) ([]T, error) {
 		copied := copy(data, b.buf[b.r:])
 		if copied < n {
 			copy(data[copied:], b.buf[:n-copied])
+			b.r = n - copied
+		} else {
+			b.r += n
 		}
-		b.r += n - copied
 	}
 
 	if b.r == b.size {
